@@ -56,7 +56,9 @@ def match_known(entries, violation):
         if e.get("status") != "known":
             continue
         if e.get("kind") == violation["kind"] and e.get("site") == violation["site"]:
-            return e
+            vt = violation.get("tags") or {}
+            if all(vt.get(k) == v for k, v in (e.get("tags") or {}).items()):
+                return e
     return None
 
 
